@@ -256,7 +256,32 @@ func famStartCancel(w *World, c *Case, rng *rand.Rand) {
 		if how == "expires-at-once" || how == "already-expired" {
 			wantCode, wantErr = codes.DeadlineExceeded, context.DeadlineExceeded.Error()
 		}
-		normal := how == "cancel-after-open" && ((t.K == "invoke" && t.Err == "") || (t.K == "recv" && t.EOF))
+		// (even a context that was over before the call races with normal completion here: the
+		// library notices it on a goroutine of its own, and in a rare schedule - seen once in 62 488
+		// thorough cases - the whole round trip completes first; that outcome is legal if complete)
+		normal := (t.K == "invoke" && t.Err == "") || (t.K == "recv" && t.EOF)
+		if normal {
+			w.Stat("startcancel_normal_outcomes", 1)
+			if v := buildViews(w.Env)["sc"]; v != nil {
+				okSends, got := 0, 0
+				for _, sd := range v.hdlSends {
+					if sd.RetSeq != 0 && sd.Err == "" {
+						okSends++
+					}
+				}
+				for _, r := range v.cliRecvs {
+					if r.RetSeq != 0 && r.Err == "" {
+						got++
+					}
+				}
+				if v.invoke != nil && v.invoke.Err == "" {
+					got++
+				}
+				if got != okSends {
+					w.Violate("C07", "mixed-outcome:missing-data", "an RPC cancelled at its very start (%s): the caller was told the RPC ended normally after %d message(s); the handler had sent %d", w.SigExtra, got, okSends)
+				}
+			}
+		}
 		if !normal && t.Code != wantCode && t.Err != wantErr {
 			w.Violate("C07", "wrong-code-for-cause", "an RPC cancelled at its very start (%s): the caller got code %v (%q), want %v", w.SigExtra, t.Code, t.Err, wantCode)
 		}
